@@ -153,6 +153,11 @@ func (e *Executor) RunTask(ctx context.Context, call *Call) error {
 	return e.startExecution(ctx, t, func(ctx context.Context) error {
 		e.Logger.VerboseErrf(logger.Magenta, "task: %q started\n", call.Task)
 		if err := e.runDeps(ctx, t); err != nil {
+			// A command of a dependency failed: for the task that was asked
+			// for, that is a failed run like a failure of its own commands
+			if _, isExitError := interp.IsExitStatus(err); isExitError && !call.Indirect {
+				return &errors.TaskRunError{TaskName: t.Task, Err: err}
+			}
 			return err
 		}
 
